@@ -180,65 +180,70 @@ def check_quantization_matrix(qm, dwt_depth, dwt_depth_ho):
 
 def check_domains(out, tables):
     """Post-condition of a *returned* value.  `tables` is the vc2_data_tables module (the enumerations the
-    documentation refers to).  Returns a list of human-readable problems (empty: in-domain)."""
+    documentation refers to).  Returns a list of (field, human-readable problem) (empty: in-domain)."""
     if not isinstance(out, dict):
-        return ["returned %s, not a dictionary of CodecFeatures" % type(out).__name__]
+        return [("return value", "returned %s, not a dictionary of CodecFeatures" % type(out).__name__)]
     probs = []
+
+    def bad(w, field, msg):
+        probs.append((field, "%s %s %s" % (w, field, msg)))
+
     seen = set()
     for key, cf in out.items():
         w = "[%r]" % (key,)
         if not isinstance(key, str):
-            probs.append("%s: key is not a string" % w)
+            bad(w, "key", "is not a string")
         if not isinstance(cf, collections.abc.Mapping):
-            probs.append("%s: value is %s, not a CodecFeatures mapping" % (w, type(cf).__name__))
+            bad(w, "value", "is %s, not a CodecFeatures mapping" % type(cf).__name__)
             continue
         have = set(cf.keys())
         if have != CF_KEYS:
-            probs.append("%s: fields missing %s / undocumented %s" % (w, sorted(CF_KEYS - have), sorted(have - CF_KEYS, key=repr)))
+            bad(w, "fields", "missing %s / undocumented %s" % (sorted(CF_KEYS - have), sorted(have - CF_KEYS, key=repr)))
         name = cf.get("name")
         if not isinstance(name, str) or name != key:
-            probs.append("%s: name field %r differs from its key" % (w, name))
+            bad(w, "name", "= %r differs from its key" % (name,))
         if name in seen:
-            probs.append("%s: name %r used by more than one configuration" % (w, name))
+            bad(w, "name", "= %r is used by more than one configuration" % (name,))
         seen.add(name)
         for f, en in CF_ENUMS.items():
             if f in cf and not isinstance(cf[f], getattr(tables, en)):
-                probs.append("%s.%s = %r is not a member of %s" % (w, f, cf[f], en))
+                bad(w, f, "= %r is not a member of %s" % (cf[f], en))
         for f, lo in CF_INT_MIN.items():
             if f in cf and not (_is_plain_int(cf[f]) and cf[f] >= lo):
-                probs.append("%s.%s = %r is not an integer >= %d" % (w, f, cf[f], lo))
+                bad(w, f, "= %r is not an integer >= %d" % (cf[f], lo))
         if "lossless" in cf:
             ll = cf["lossless"]
             if not isinstance(ll, bool):
-                probs.append("%s.lossless = %r is not a bool" % (w, ll))
+                bad(w, "lossless", "= %r is not a bool" % (ll,))
             if "picture_bytes" in cf:
                 pb = cf["picture_bytes"]
                 if ll:
                     if pb is not None:
-                        probs.append("%s: lossless but picture_bytes = %r (must be absent/None)" % (w, pb))
+                        bad(w, "picture_bytes", "= %r although lossless (must be absent/None)" % (pb,))
                 else:
                     if not (_is_plain_int(pb) and pb >= 1):
-                        probs.append("%s: lossy but picture_bytes = %r is not an integer >= 1" % (w, pb))
+                        bad(w, "picture_bytes", "= %r although lossy (must be an integer >= 1)" % (pb,))
         if "quantization_matrix" in cf and _is_plain_int(cf.get("dwt_depth")) and _is_plain_int(cf.get("dwt_depth_ho")) \
                 and cf["dwt_depth"] >= 0 and cf["dwt_depth_ho"] >= 0:
-            probs.extend("%s: %s" % (w, p) for p in check_quantization_matrix(cf["quantization_matrix"], cf["dwt_depth"], cf["dwt_depth_ho"]))
-        vp = cf.get("video_parameters")
+            for msg in check_quantization_matrix(cf["quantization_matrix"], cf["dwt_depth"], cf["dwt_depth_ho"]):
+                bad(w, "quantization_matrix", ": " + msg)
         if "video_parameters" in cf:
+            vp = cf["video_parameters"]
             if not isinstance(vp, collections.abc.Mapping):
-                probs.append("%s.video_parameters is %s, not a mapping" % (w, type(vp).__name__))
+                bad(w, "video_parameters", "is %s, not a mapping" % type(vp).__name__)
             else:
                 hv = set(vp.keys())
                 if hv != VP_KEYS:
-                    probs.append("%s.video_parameters: missing %s / undocumented %s" % (w, sorted(VP_KEYS - hv), sorted(hv - VP_KEYS, key=repr)))
+                    bad(w, "video_parameters fields", "missing %s / undocumented %s" % (sorted(VP_KEYS - hv), sorted(hv - VP_KEYS, key=repr)))
                 for f, en in VP_ENUMS.items():
                     if f in vp and not isinstance(vp[f], getattr(tables, en)):
-                        probs.append("%s.video_parameters.%s = %r is not a member of %s" % (w, f, vp[f], en))
+                        bad(w, "video_parameters." + f, "= %r is not a member of %s" % (vp[f], en))
                 for f, lo in VP_INT_MIN.items():
                     if f in vp and not (_is_plain_int(vp[f]) and vp[f] >= lo):
-                        probs.append("%s.video_parameters.%s = %r is not an integer >= %d" % (w, f, vp[f], lo))
+                        bad(w, "video_parameters." + f, "= %r is not an integer >= %d" % (vp[f], lo))
                 for f in VP_BOOLS:
                     if f in vp and not isinstance(vp[f], bool):
-                        probs.append("%s.video_parameters.%s = %r is not a bool" % (w, f, vp[f]))
+                        bad(w, "video_parameters." + f, "= %r is not a bool" % (vp[f],))
     return probs
 
 
@@ -269,6 +274,26 @@ def reference_csv_reader_error(text, mode):
     except csv.Error as e:
         return str(e)
     return None
+
+
+def count_nonempty_columns(text, mode):
+    """Number of columns holding at least one non-blank cell, per the documented table layout: the first
+    cell of a row is its key, rows whose key is blank or starts with '#' are ignored, cells are stripped.
+    Read with the standard csv reader; None if that reader rejects the text."""
+    cols = set()
+    try:
+        for row in csv.reader(make_lines(text, mode)):
+            if not row:
+                continue
+            key = row[0].strip()
+            if key == "" or key[0] == "#":
+                continue
+            for j in range(1, len(row)):
+                if row[j].strip() != "":
+                    cols.add(j)
+    except csv.Error:
+        return None
+    return len(cols)
 
 
 def _load_target():
@@ -318,17 +343,21 @@ def run_case(text, mode, cfmod=None, tables=None):
             "%s:%s" % (detail["innermost_frame"]["function"], detail["innermost_frame"]["line"][:60]) if inner else ""))
         return ("fail", detail)
     probs = check_domains(out, tables)
+    if not probs and isinstance(out, dict):
+        # "unique names": every non-empty column is its own configuration (none silently merged or dropped)
+        ncols = count_nonempty_columns(text, mode)
+        if ncols is not None and ncols != len(out):
+            probs.append(("configurations != non-empty columns",
+                          "the table has %d non-empty column(s) but %d configuration(s) were returned (names %r): columns were merged "
+                          "or dropped, names are not unique per column" % (ncols, len(out), list(out)[:6])))
     if probs:
-        first = probs[0]
-        # signature: the problem with the concrete key/value stripped
-        sig = first.split("]", 1)[-1].split("=")[0].strip(" .:")[:60]
         return ("fail", {
             "kind": "domain",
-            "problems": probs[:10],
+            "problems": [m for _f, m in probs[:10]],
             "expected": "every returned field inside its documented domain",
-            "observed": first,
+            "observed": probs[0][1][:400],
             "known_key": None,
-            "sig": "new|domain|" + sig,
+            "sig": "new|domain|" + probs[0][0],
         })
     return ("ok", len(out))
 
@@ -689,7 +718,12 @@ def gen_structural(cases, tables, seeds, tier, rng):
     for t in tiny:
         cases.add(fam, "tiny %r" % t[:30], t, modes=MODES if len(t) < 1000 else None)
 
-    for label, grid in seeds:
+    tables_ = list(seeds)
+    if tier != "quick":
+        for label, grid in seeds:
+            for j in range(1, max(len(r) for r in grid)):
+                tables_.append(("%s#col%d" % (label, j), single_column(grid, j)))
+    for label, grid in tables_:
         width = max(len(r) for r in grid)
         rows = data_rows(grid)
         keyrow = {grid[i][0].strip(): i for i in rows}
@@ -872,7 +906,7 @@ FAMILIES = collections.OrderedDict([
                 "quantisation matrix with need-3..need+3 values, negative values, odd separators, one malformed entry; huge depths; "
                 "every base video format with all 'default' cells")),
     ("structural", (gen_structural,
-                    "structural mutation of each sample file and the built-in seed: a fixed list of tiny/degenerate texts (empty, header only, "
+                    "structural mutation of each sample file and the built-in seed (thorough: also of each of their single columns): a fixed list of tiny/degenerate texts (empty, header only, "
                     "quotes, bare CR, NUL, BOM, 131073-character fields, 140000-character quoted run); per data row: delete, duplicate, duplicate "
                     "with other values, blank/comment/upper-case/pad/BOM/NUL the key, ragged rows, move, raw malformed cell (open quote, stray quote, "
                     "bare CR, NUL); unknown rows; row order; names (equal, equal after strip, colliding with default names, blank, odd characters); "
@@ -1044,8 +1078,10 @@ ASSUMPTIONS = [
     "C28: the domain oracle is written from the CodecFeatures docstring and docs/source/user_guide/generating_test_cases.rst; integer minimums "
     "(depths, offsets, clean area, fragment_slice_count >= 0; slice counts, frame size, rates, ratios, excursions, picture_bytes >= 1) are the "
     "checker author's reading of those documents; enumerations are those of the installed vc2_data_tables package (trusted); quantisation-matrix "
-    "entries are only required to be integers (the guide says 'integers'; their sign is not checked); whether a *valid* table is accepted, and "
-    "whether returned values equal what the table says, is not part of C28 and not checked",
+    "entries are only required to be integers (the guide says 'integers'; their sign is not checked); 'unique names' is checked as: every "
+    "returned name equals its key and the number of configurations equals the number of non-empty columns (counted with the standard csv reader, "
+    "blank/'#' keys ignored, cells stripped); whether a *valid* table is accepted, and whether returned values equal what the table says, is not "
+    "part of C28 and not checked",
     "C28 known-finding predicate D6: a failing case is attributed to the known finding only if the escaping exception is exactly csv.Error, the "
     "standard library's csv.reader run independently over the same lines raises csv.Error with the identical message, and the innermost Python "
     "frame is in codec_features.py; trusted: CPython's csv module",
@@ -1062,10 +1098,10 @@ REGISTER = {
             technique="bounded stand-in: mutation-based and seeded random input generation over the shipped sample CSV files, real "
                       "read_codec_features_csv executed on every text, post-condition oracle written from the documentation; known finding D6 "
                       "recognised by an explained-by predicate (independent csv.reader run reproduces the escaping csv.Error)",
-            text="For each generated CSV text (quick: ~20 thousand, thorough: ~150 thousand; cell-by-cell, paired, structural and random "
+            text="For each generated CSV text (quick: ~37 thousand, thorough: ~250 thousand evaluations; cell-by-cell, paired, structural and random "
                  "mutations of the sample codec-feature files) read_codec_features_csv either returns configurations inside the documented "
                  "domains (enum members, integer minimums, picture_bytes exactly for lossy, quantisation matrix shape for the returned depths, "
-                 "names unique and equal to their keys, exactly the documented fields) or raises InvalidCodecFeaturesError.",
+                 "names unique and equal to their keys, one configuration per non-empty column, exactly the documented fields) or raises InvalidCodecFeaturesError.",
             note="Sampled, not proved. On the unchanged tree csv.Error escapes for a bare carriage return inside an unquoted field "
                  "(newline='\\n' presentation) and for fields longer than csv.field_size_limit() (any presentation, also through the CLI): known finding D6.",
         ),
